@@ -5,6 +5,7 @@
 //   ["unlock",a] wait for the outcome of attempt a; if it owns the mutex: unlock()
 //   ["try",a]    try_lock() as attempt a
 //   ["stop",a]   request_stop() on attempt a's stop source (v2 only)
+// sched 2 = recording manual scheduler per harness thread (C11 clause: completions arrive on the waiter's own context)
 // Operation states live in per-execution heap objects that are freed only after every thread has finished
 // (C15 is not a lifetime property; see engine.py).
 #include "vrt.hpp"
@@ -20,6 +21,7 @@
 
 #include <nlohmann/json.hpp>
 
+#include <deque>
 #include <fstream>
 #include <set>
 
@@ -93,6 +95,38 @@ static void lev(const char* e, int a, int r) {
   vrt::ev("%s", buf);
 }
 
+// A recording manual scheduler (C11 clause): schedule() enqueues the completion in the queue of the context that owns
+// the receiver; only that context (the harness thread that started the lock attempt) drains the queue, so the thread id
+// in a completion event names the context on which the completion was delivered.  It never looks at the stop token.
+struct RecTask { virtual void run() noexcept = 0; virtual ~RecTask() = default; };
+struct RecQ { std::deque<RecTask*> q; };
+struct rec_scheduler {
+  RecQ* sq = nullptr;
+  template <typename R>
+  struct op final : RecTask {
+    RecQ* sq; R r;
+    template <typename R2> op(RecQ* s, R2&& rr) : sq(s), r((R2 &&) rr) {}
+    op(op&&) = delete;
+    void start() noexcept { sq->q.push_back(this); }
+    void run() noexcept override { unifex::set_value(std::move(r)); }
+  };
+  struct sender {
+    RecQ* sq;
+    template <template <typename...> class Variant, template <typename...> class Tuple>
+    using value_types = Variant<Tuple<>>;
+    template <template <typename...> class Variant>
+    using error_types = Variant<>;
+    static constexpr bool sends_done = false;
+    template <typename R>
+    friend op<remove_cvref_t<R>> tag_invoke(tag_t<unifex::connect>, const sender& s, R&& r) noexcept {
+      return op<remove_cvref_t<R>>(s.sq, (R &&) r);
+    }
+  };
+  sender schedule() const noexcept { return sender{sq}; }
+  friend bool operator==(const rec_scheduler& a, const rec_scheduler& b) noexcept { return a.sq == b.sq; }
+  friend bool operator!=(const rec_scheduler& a, const rec_scheduler& b) noexcept { return a.sq != b.sq; }
+};
+
 struct Book {   // harness bookkeeping (one logical thread runs at a time)
   // 0 idle, 1 started (outcome unknown), 2 owns, 3 done, 4 unlocked, 5 try_lock failed
   int st[NA + 1] = {};
@@ -109,12 +143,12 @@ struct RecvV1 {
 };
 template <class Sched>
 struct RecvV2 {
-  Book* b; int a; inplace_stop_source* src;
+  Book* b; int a; inplace_stop_source* src; Sched sch;
   void set_value() noexcept { b->acquired(a); }
   void set_done() noexcept { b->done(a); }
   template <class E> void set_error(E&&) noexcept { std::terminate(); }
   friend inplace_stop_token tag_invoke(tag_t<get_stop_token>, const RecvV2& r) noexcept { return r.src->get_token(); }
-  friend Sched tag_invoke(tag_t<get_scheduler>, const RecvV2&) noexcept { return {}; }
+  friend Sched tag_invoke(tag_t<get_scheduler>, const RecvV2& r) noexcept { return r.sch; }
 };
 
 struct HolderBase { virtual ~HolderBase() = default; virtual void go() noexcept = 0; };
@@ -130,6 +164,12 @@ struct WorldBase {
   Book bk;
   inplace_stop_source src[NA + 1];
   HolderBase* ops[NA + 1] = {};
+  RecQ sq[4];                  // per harness thread (= context) queue of the recording scheduler
+  int drainOwn() {             // deliver what was scheduled onto the calling thread's context
+    RecQ& q = sq[vrt::self_id() & 3]; int n = 0;
+    while (!q.q.empty()) { RecTask* t = q.q.front(); q.q.pop_front(); t->run(); ++n; }
+    return n;
+  }
   virtual ~WorldBase() { for (auto*& p : ops) { delete p; p = nullptr; } }
   virtual HolderBase* make(int a) = 0;
   virtual bool tryLock() = 0;
@@ -156,7 +196,7 @@ struct WorldBase {
           break;
         }
         case 'u': {
-          while (bk.st[a] == 1) UNIFEX_VERIF_SPIN("mutex.h.wait");
+          while (bk.st[a] == 1) { if (drainOwn() == 0) UNIFEX_VERIF_SPIN("mutex.h.wait"); }
           if (bk.st[a] != 2) break;
           UNIFEX_VERIF_YIELD("mutex.h.unlock");
           lev("Unlock", a, -1);
@@ -172,6 +212,7 @@ struct WorldBase {
         }
       }
     }
+    drainOwn();
   }
   // end of execution: every thread has finished.  A fresh try_lock must succeed (lock not leaked).
   void probe() {
@@ -196,7 +237,9 @@ struct WorldV2 : WorldBase {
   v2::async_mutex m;
   HolderBase* make(int a) override {
     auto s = m.async_lock();
-    return new Holder<decltype(s), RecvV2<Sched>>(std::move(s), RecvV2<Sched>{&bk, a, &src[a]});
+    Sched sch{};
+    if constexpr (std::is_same_v<Sched, rec_scheduler>) sch.sq = &sq[vrt::self_id() & 3];
+    return new Holder<decltype(s), RecvV2<Sched>>(std::move(s), RecvV2<Sched>{&bk, a, &src[a], sch});
   }
   bool tryLock() override { return m.try_lock(); }
   void unlock() override { m.unlock(); }
@@ -207,6 +250,7 @@ static std::unique_ptr<WorldBase> makeWorld(const Scenario& sc) {
   std::unique_ptr<WorldBase> w;
   if (sc.ver == 1) w = std::make_unique<WorldV1>();
   else if (sc.sched == 1) w = std::make_unique<WorldV2<inline_scheduler>>();
+  else if (sc.sched == 2) w = std::make_unique<WorldV2<rec_scheduler>>();
   else w = std::make_unique<WorldV2<plain_scheduler>>();
   w->scn = &sc;
   return w;
